@@ -126,13 +126,13 @@ macro_rules! fin_h {
     };
 }
 
-//@ prop=C01 tier=thorough cost=60 fns="Mp4Writer::finalize,finalize_standard,SampleTables::from_samples" bound="video-only, 2 samples (2+3 bytes), all u64 pts, key flags K N K; moov builder replaced by an encoding stand-in" unwind=6 stubs="build_moov_box(recording stand-in)" covers_optional="x" mem=8
+//@ prop=C01 tier=thorough cost=182 fns="Mp4Writer::finalize,finalize_standard,SampleTables::from_samples" bound="video-only, 2 samples (2+3 bytes), all u64 pts, key flags K N K; moov builder replaced by an encoding stand-in" unwind=6 stubs="build_moov_box(recording stand-in)" covers_optional="x" mem=8
 fin_h!(c01_std_v2, 2, 0, false, false, 8, 6);
-//@ prop=C01 tier=quick cost=60 fns="Mp4Writer::finalize,finalize_fast_start,SampleTables::from_samples" bound="video-only fast start, 2 samples, all u64 pts, key flags K N K" unwind=6 stubs="build_moov_box(recording stand-in)" mem=8
+//@ prop=C01 tier=quick cost=241 fns="Mp4Writer::finalize,finalize_fast_start,SampleTables::from_samples" bound="video-only fast start, 2 samples, all u64 pts, key flags K N K" unwind=6 stubs="build_moov_box(recording stand-in)" mem=8
 fin_h!(c01_fast_v2, 2, 0, true, false, 8, 6);
-//@ prop=C01 tier=quick cost=200 fns="Mp4Writer::finalize,finalize_standard,compute_interleave_schedule,SampleTables::from_samples" bound="2 video + 1 audio samples, all u64 pts (video reordering excluded while KF-C01 is listed), all key flags" unwind=6 stubs="build_moov_box(recording stand-in)" timeout=2400 mem=10
+//@ prop=C01 tier=quick cost=334 fns="Mp4Writer::finalize,finalize_standard,compute_interleave_schedule,SampleTables::from_samples" bound="2 video + 1 audio samples, all u64 pts (video reordering excluded while KF-C01 is listed), all key flags" unwind=6 stubs="build_moov_box(recording stand-in)" timeout=2400 mem=10
 fin_h!(c01_std_v2a1, 2, 1, false, true, 8, 6);
-//@ prop=C01 tier=thorough cost=300 fns="Mp4Writer::finalize,finalize_fast_start,compute_interleave_schedule,SampleTables::from_samples" bound="fast start, 2 video + 1 audio samples, all u64 pts, key flags K N K" unwind=6 stubs="build_moov_box(recording stand-in)" timeout=2400 mem=14
+//@ prop=C01 tier=thorough cost=575 fns="Mp4Writer::finalize,finalize_fast_start,compute_interleave_schedule,SampleTables::from_samples" bound="fast start, 2 video + 1 audio samples, all u64 pts, key flags K N K" unwind=6 stubs="build_moov_box(recording stand-in)" timeout=2400 mem=14
 fin_h!(c01_fast_v2a1, 2, 1, true, true, 8, 6);
 //@ prop=C01 tier=thorough cost=120 fns="Mp4Writer::finalize,finalize_standard,compute_interleave_schedule" bound="1 video + 1 audio sample" unwind=6 stubs="build_moov_box(recording stand-in)" covers_optional="reordered|in-order" mem=10
 fin_h!(c01_std_v1a1, 1, 1, false, true, 8, 6);
